@@ -57,7 +57,7 @@ func tenantSpec(onlyA bool) world.Spec {
 		spec.Tenants[host] = t
 		// a completed login of that user under this tenant, to be delivered to the tenant's consumer service
 		spec.Requests = append(spec.Requests, world.RequestSpec{ID: "tenant-req-" + tag, AppID: sp.AppID, RelayState: "rs-tenant-" + tag, ACS: sp.ACS[0].Location, Binding: world.BindPost,
-			AuthRequestID: "_tenant-authn-" + tag, UserID: u.UserID, Done: true})
+			AuthRequestID: "_id-both-tenants-chose", UserID: u.UserID, Done: true})
 		if spec.Apps == nil {
 			spec.Apps = map[string]string{}
 		}
@@ -129,6 +129,7 @@ func tenantSchedRun(c TenantSchedCase) ([]*ev.Violation, []string) {
 	if !c.Sequential {
 		how = "overlapping under the schedule " + short(strings.Join(trace, " "), 160)
 	}
+	seenMsgIDs := map[string]int{}
 	for i, rep := range reps {
 		tn := c.Tenant[i]
 		own, other := string(rune('a'+tn)), string(rune('a'+1-tn))
@@ -148,6 +149,18 @@ func tenantSchedRun(c TenantSchedCase) ([]*ev.Violation, []string) {
 				break
 			}
 		}
+		if c.Kind == "callback" && resp != nil {
+			ids := []string{resp.ID}
+			for _, a := range resp.Assertions {
+				ids = append(ids, a.ID)
+			}
+			for _, id := range ids {
+				if j, dup := seenMsgIDs[id]; dup && id != "" {
+					add("id-reused", "ID %q was already used in the reply to request %d", id, j)
+				}
+				seenMsgIDs[id] = i
+			}
+		}
 		if c.Kind == "callback" {
 			switch {
 			case resp == nil || !resp.Success() || len(resp.Assertions) != 1:
@@ -158,8 +171,8 @@ func tenantSchedRun(c TenantSchedCase) ([]*ev.Violation, []string) {
 				add("destination", "delivered to %q with Destination %q; the stored consumer URL is %q", d.Target, resp.Destination, "https://tenant-"+own+".sp.example/acs")
 			case resp.Issuer != wantIssuer:
 				add("response-issuer", "Issuer %q, the entity ID for the request host is %q", resp.Issuer, wantIssuer)
-			case resp.InResponseTo != "_tenant-authn-"+own:
-				add("inresponseto", "InResponseTo %q, the stored request's ID is %q", resp.InResponseTo, "_tenant-authn-"+own)
+			case resp.InResponseTo != "_id-both-tenants-chose":
+				add("inresponseto", "InResponseTo %q, the stored request's ID is %q", resp.InResponseTo, "_id-both-tenants-chose")
 			case d.RelayState != "rs-tenant-"+own:
 				add("relaystate", "RelayState %q, stored %q", d.RelayState, "rs-tenant-"+own)
 			}
